@@ -164,4 +164,206 @@ theorem formatField_day (ty : Ty) (v : Int) (dt : NDT) (c : Comps) (w : Sink) (h
       simp only [Int.ofNat_eq_natCast, Int.toNat_natCast]
       rw [pad_of_long 2 _ (digits_length_ge2 _ (by omega))]
 
+theorem month_name_table (style : NameStyle) :
+    MONTH_NAME_TABLE.getD style.index [] = monthNames.map (styled style) := by
+  cases style <;> decide +kernel
+
+theorem day_name_table (style : NameStyle) :
+    DAY_NAME_TABLE.getD style.index [] = dayNames.map (styled style) := by
+  cases style <;> decide +kernel
+
+theorem idx_name_row (tbl : List (List Bytes)) (style : NameStyle) (hlen : tbl.length = 6) :
+    idx tbl (Int.ofNat style.index) = .ok (tbl.getD style.index []) := by
+  unfold idx
+  have h6 : style.index < 6 := by cases style <;> decide
+  simp only [Int.ofNat_eq_natCast, Int.toNat_natCast]
+  have : ¬ ((style.index : Int) < 0) := by omega
+  simp only [this, ↓reduceIte]
+  rw [List.getD_eq_getElem?_getD]
+  have : style.index < tbl.length := by omega
+  simp [List.getElem?_eq_getElem this]
+
+theorem idx_map (names : List Bytes) (g : Bytes → Bytes) (i : Int) (h0 : 0 ≤ i) (hn : i < names.length) :
+    idx (names.map g) i = .ok (g (names.getD i.toNat [])) := by
+  unfold idx
+  have : ¬ i < 0 := by omega
+  simp only [this, ↓reduceIte]
+  have hlt : i.toNat < names.length := by omega
+  simp [List.getElem?_map, List.getElem?_eq_getElem hlt, List.getD_eq_getElem?_getD]
+
+theorem formatField_monthName (ty : Ty) (v : Int) (dt : NDT) (c : Comps) (w : Sink) (style : NameStyle)
+    (h : Agrees ty v dt c) :
+    Formatter.formatField ty v dt w (.MonthName style) = outcome w (renderField ty c (.MonthName style)) := by
+  obtain ⟨h1, h2, h3, h4, h5⟩ := info_cases ty
+  simp only [Formatter.formatField, renderField, h1, h.month]
+  by_cases hd : ty = .D ∨ ty = .TS ∨ ty = .OD
+  · obtain ⟨m1, _⟩ := h.date hd
+    have m12 := h.monthR.2
+    have hno : ¬ (c.month < 1 ∨ c.month > 12) := by omega
+    have hrow := idx_name_row MONTH_NAME_TABLE style (by decide)
+    simp only [Int.ofNat_eq_natCast] at hrow
+    simp only [hd, decide_true, ↓reduceIte, hno, bind, Except.bind, hrow, month_name_table]
+    rw [idx_map monthNames (styled style) (c.month - 1) (by omega) (by simp [monthNames]; omega)]
+    simp [outcome]
+  · simp [hd, outcome, Formatter.notRecognized]
+
+
+theorem formatField_dayName (ty : Ty) (v : Int) (dt : NDT) (c : Comps) (w : Sink) (style : NameStyle)
+    (h : Agrees ty v dt c) :
+    Formatter.formatField ty v dt w (.DayName style) = outcome w (renderField ty c (.DayName style)) := by
+  obtain ⟨h1, h2, h3, h4, h5⟩ := info_cases ty
+  simp only [Formatter.formatField, renderField, h1]
+  by_cases hd : ty = .D ∨ ty = .TS ∨ ty = .OD
+  · obtain ⟨_, _, _, _, ⟨d, hdate, hdow⟩, w0, w6, _⟩ := h.date hd
+    have hrow := idx_name_row DAY_NAME_TABLE style (by decide)
+    simp only [Int.ofNat_eq_natCast] at hrow
+    simp only [hd, decide_true, ↓reduceIte, hdate, bind, Except.bind, pure, Except.pure, hdow, hrow, day_name_table]
+    rw [idx_map dayNames (styled style) (c.dow0 + 1 - 1) (by omega) (by simp [dayNames, monthNames.bytesOf']; omega)]
+    simp [outcome]
+  · simp [hd, outcome, Formatter.notRecognized]
+
+theorem formatField_dayOfWeek (ty : Ty) (v : Int) (dt : NDT) (c : Comps) (w : Sink) (h : Agrees ty v dt c) :
+    Formatter.formatField ty v dt w .DayOfWeek = outcome w (renderField ty c .DayOfWeek) := by
+  obtain ⟨h1, h2, h3, h4, h5⟩ := info_cases ty
+  simp only [Formatter.formatField, renderField, h1]
+  by_cases hd : ty = .D ∨ ty = .TS ∨ ty = .OD
+  · obtain ⟨_, _, _, _, ⟨d, hdate, hdow⟩, w0, w6, _⟩ := h.date hd
+    simp only [hd, decide_true, ↓reduceIte, hdate, bind, Except.bind, pure, Except.pure, hdow, day_of_week_table]
+    rw [idx_map_range (pad 1) 8 (c.dow0 + 1) (by omega) (by omega)]
+    simp [outcome]
+  · simp [hd, outcome, Formatter.notRecognized]
+
+theorem formatField_doy_weeks (ty : Ty) (v : Int) (dt : NDT) (c : Comps) (w : Sink) (h : Agrees ty v dt c) :
+    Formatter.formatField ty v dt w .DayOfYear = outcome w (renderField ty c .DayOfYear) ∧
+    Formatter.formatField ty v dt w .WeekOfYear = outcome w (renderField ty c .WeekOfYear) ∧
+    Formatter.formatField ty v dt w .WeekOfMonth = outcome w (renderField ty c .WeekOfMonth) := by
+  obtain ⟨h1, h2, h3, h4, h5⟩ := info_cases ty
+  simp only [Formatter.formatField, renderField, h1]
+  by_cases hd : ty = .D ∨ ty = .TS ∨ ty = .OD
+  · obtain ⟨_, d1, d31, _, _, _, _, hdoy, y1, y366⟩ := h.date hd
+    have hdoy' : theDayOfYear dt.year dt.month c.day = c.doy := by rw [← h.day]; exact hdoy
+    simp only [hd, decide_true, ↓reduceIte, h.day, hdoy', bind, Except.bind, day_of_year_table, week_of_year_table,
+      week_of_month_table]
+    rw [idx_map_range _ 367 c.doy (by omega) (by omega), idx_map_range _ 367 c.doy (by omega) (by omega),
+      idx_map_range _ 32 c.day (by omega) (by omega)]
+    have e1 : ¬ c.doy.toNat = 0 := by omega
+    have e2 : ¬ c.day.toNat = 0 := by omega
+    simp [outcome, e1, e2]
+  · simp [hd, outcome, Formatter.notRecognized]
+
+
+theorem writeU32_int (x : Int) (w : Nat) (h0 : 0 ≤ x) (h1 : x ≤ 4294967295) : writeU32 x w = pad w x.toNat := by
+  obtain ⟨k, rfl⟩ := Int.eq_ofNat_of_zero_le h0
+  have := writeU32_eq_pad k w (by omega)
+  simpa using this
+
+theorem formatField_year (ty : Ty) (v : Int) (dt : NDT) (c : Comps) (w : Sink) (n : Nat) (hn : 1 ≤ n ∧ n ≤ 4)
+    (h : Agrees ty v dt c) :
+    Formatter.formatField ty v dt w (.Year n) = outcome w (renderField ty c (.Year n)) := by
+  obtain ⟨h1, h2, h3, h4, h5⟩ := info_cases ty
+  simp only [Formatter.formatField, renderField, h1, h4, h.year]
+  have hy := h.yearR
+  by_cases hd : ty = .D ∨ ty = .TS ∨ ty = .OD
+  · obtain ⟨_, _, _, y9999, _⟩ := h.date hd
+    simp only [hd, decide_true, ↓reduceIte]
+    have : n = 1 ∨ n = 2 ∨ n = 3 ∨ n = 4 := by omega
+    rcases this with rfl | rfl | rfl | rfl <;>
+      simp only [idx, YEAR_MODIFIER, bind, Except.bind, outcome] <;>
+      (simp
+       rw [rrem_nonneg_eq hy.1]
+       unfold asU32
+       rw [Int.emod_eq_of_lt (by omega) (by omega)]
+       rw [writeU32_int _ _ (by omega) (by omega)])
+  · by_cases hym : ty = .YM
+    · subst hym
+      simp only [outcome]
+      simp
+      unfold asU32
+      rw [Int.emod_eq_of_lt (by omega) (by omega), writeU32_int _ _ hy.1 hy.2]
+    · cases ty <;> simp at hd hym <;> simp [outcome, Formatter.notRecognized]
+
+
+/-- Fields the lexer can produce: year width 1..4, fraction precision 1..9, never `Invalid`. -/
+def Field.WellFormed : Field → Prop
+  | .Invalid => False
+  | .Year n => 1 ≤ n ∧ n ≤ 4
+  | .Fraction (some p) => 1 ≤ p ∧ p ≤ 9
+  | _ => True
+
+/-- The fraction step, isolated: the float division followed by truncation gives `fractionOf`. -/
+def FractionOK (dt : NDT) (c : Comps) : Prop :=
+  ∀ p, p ≤ 9 → dt.fraction p = .ok (fractionOf c.usec p) ∧ 0 ≤ fractionOf c.usec p ∧ fractionOf c.usec p ≤ 4294967295
+
+theorem formatField_fraction (ty : Ty) (v : Int) (dt : NDT) (c : Comps) (w : Sink) (p : Option Nat)
+    (hp : Field.WellFormed (.Fraction p)) (hf : FractionOK dt c) :
+    Formatter.formatField ty v dt w (.Fraction p) = outcome w (renderField ty c (.Fraction p)) := by
+  obtain ⟨h1, h2, h3, h4, h5⟩ := info_cases ty
+  simp only [Formatter.formatField, renderField, h3]
+  have hp9 : p.getD 6 ≤ 9 := by
+    cases p with
+    | none => decide
+    | some q => simp [Field.WellFormed] at hp; simpa using hp.2
+  obtain ⟨e, lo, hi⟩ := hf (p.getD 6) hp9
+  by_cases hd : ty = .T ∨ ty = .TS ∨ ty = .DT
+  · simp only [hd, decide_true, ↓reduceIte, e, bind, Except.bind, writeU32_int _ _ lo hi, outcome]
+  · simp [hd, outcome, Formatter.notRecognized]
+
+/-- FIELD BY FIELD: the formatter writes exactly the specified rendering, or fails with a format error when the
+    token does not apply to the type. -/
+theorem formatField_eq_render (ty : Ty) (v : Int) (dt : NDT) (c : Comps) (w : Sink) (f : Field)
+    (h : Agrees ty v dt c) (hf : Field.WellFormed f) (hfr : FractionOK dt c) :
+    Formatter.formatField ty v dt w f = outcome w (renderField ty c f) := by
+  cases f with
+  | Invalid => exact absurd hf (by simp [Field.WellFormed])
+  | Blank n => exact formatField_punct ty v dt c w _ (by simp)
+  | Hyphen => exact formatField_punct ty v dt c w _ (by simp)
+  | Colon => exact formatField_punct ty v dt c w _ (by simp)
+  | Slash => exact formatField_punct ty v dt c w _ (by simp)
+  | Backslash => exact formatField_punct ty v dt c w _ (by simp)
+  | Comma => exact formatField_punct ty v dt c w _ (by simp)
+  | Dot => exact formatField_punct ty v dt c w _ (by simp)
+  | Semicolon => exact formatField_punct ty v dt c w _ (by simp)
+  | T => exact formatField_punct ty v dt c w _ (by simp)
+  | Year n => exact formatField_year ty v dt c w n hf h
+  | Month => exact formatField_month ty v dt c w h
+  | Day => exact formatField_day ty v dt c w h
+  | DayName s => exact formatField_dayName ty v dt c w s h
+  | MonthName s => exact formatField_monthName ty v dt c w s h
+  | Hour24 => exact (formatField_hms ty v dt c w h).1
+  | Hour12 => exact formatField_hour12 ty v dt c w h
+  | Minute => exact (formatField_hms ty v dt c w h).2.1
+  | Second => exact (formatField_hms ty v dt c w h).2.2
+  | Fraction p => exact formatField_fraction ty v dt c w p hf hfr
+  | AmPm s => exact formatField_ampm ty v dt c w s h
+  | DayOfWeek => exact formatField_dayOfWeek ty v dt c w h
+  | DayOfYear => exact (formatField_doy_weeks ty v dt c w h).1
+  | WeekOfMonth => exact (formatField_doy_weeks ty v dt c w h).2.2
+  | WeekOfYear => exact (formatField_doy_weeks ty v dt c w h).2.1
+
+/-- WHOLE PICTURE into an unbounded sink: the concatenation of the renderings in picture order, or a format error
+    as soon as some token does not apply. -/
+theorem formatFields_eq_render (ty : Ty) (v : Int) (dt : NDT) (c : Comps) (h : Agrees ty v dt c) (hfr : FractionOK dt c) :
+    ∀ (fields : List Field) (w : Sink), w.cap = none → (∀ f ∈ fields, Field.WellFormed f) →
+      Formatter.formatFields ty v dt w fields =
+        match renderAll ty c fields with
+        | some bs => .ok { w with buf := w.buf ++ bs }
+        | none => .error .FormatError := by
+  intro fields
+  induction fields with
+  | nil => intro w _ _; simp [Formatter.formatFields, renderAll]
+  | cons f fs ih =>
+    intro w hc hwf
+    unfold Formatter.formatFields
+    rw [formatField_eq_render ty v dt c w f h (hwf f (by simp)) hfr]
+    simp only [renderAll, bind, Option.bind]
+    cases hr : renderField ty c f with
+    | none => simp [outcome, Except.bind]
+    | some a =>
+      simp only [outcome, Sink.write, hc, Except.bind]
+      rw [ih { buf := w.buf ++ a } rfl (fun g hg => hwf g (by simp [hg]))]
+      cases renderAll ty c fs with
+      | none => rfl
+      | some b => simp [pure, List.append_assoc, hc]
+
+
 end SqlDt.Lemmas
